@@ -176,6 +176,8 @@ type pfFacts struct {
 	ub     map[ssa.Value]int64 // value ≤ c
 	lb     map[ssa.Value]int64 // value ≥ c
 	notes  []string
+	// lenGEKey[k][k2]: len(k) ≥ len(k2) (HasPrefix / HasSuffix(k, k2) answered true; strings are immutable)
+	lenGEKey map[string]map[string]bool
 }
 
 func newPFFacts() *pfFacts {
@@ -439,6 +441,16 @@ func (p *pfFacts) absorb(c *Ctx, facts []condFact, depth int) {
 					k := collKey(x.Common().Args[0])
 					p.note(k)
 					p.lenGE[k] = append(p.lenGE[k], term{nil, int64(len(lit))})
+				} else if f.Val {
+					k, k2 := collKey(x.Common().Args[0]), collKey(x.Common().Args[1])
+					p.note(k)
+					if p.lenGEKey == nil {
+						p.lenGEKey = map[string]map[string]bool{}
+					}
+					if p.lenGEKey[k] == nil {
+						p.lenGEKey[k] = map[string]bool{}
+					}
+					p.lenGEKey[k][k2] = true
 				}
 				continue
 			}
@@ -707,6 +719,10 @@ func (p *pfFacts) lenAtLeast(key string, want term) bool {
 	// want = len(key') + k with k ≤ 0 and same key
 	if want.base != nil {
 		if lk, ok := lenKey(want.base); ok && lk == key && want.k <= 0 {
+			return true
+		}
+		// … or a key' that is a prefix / suffix of key
+		if lk, ok := lenKey(want.base); ok && p.lenGEKey[key][lk] && want.k <= 0 {
 			return true
 		}
 		// want.base ≤ c known
